@@ -1,7 +1,7 @@
 """C10 — archive members come out as themselves: right bytes, name, order; a corrupt member affects only itself.
 
-Archives are produced by reference writers (zipfile, tarfile, the independent 7z writer vlib/gen/sevenz.py) over sets of
-generated member documents in every layout; read_archive's results are compared, in order, with extracting each eligible
+Archives are produced by reference writers (zipfile, tarfile in its three header formats PAX / GNU / USTAR, the independent
+7z writer vlib/gen/sevenz.py) over sets of generated member documents in every layout; read_archive's results are compared, in order, with extracting each eligible
 member's bytes on its own through the routed extractor under the same archive!/member path.
 """
 from __future__ import annotations
@@ -31,7 +31,8 @@ def build_members(seed: int, n: int, corrupt: int | None, with_noise: bool):
     from vlib.gen import docs, mutate
     rng = random.Random(f"c10:{seed}")
     members, eligible = [], []
-    dirs = ["", "a/", "a/b/", "docs v2/", "ünï/", "報告/", "Q1最终/", "x\u0100y/", "a\u3000b/", "\U0001F600/"]
+    dirs = ["", "a/", "a/b/", "docs v2/", "ünï/", "報告/", "Q1最终/", "x\u0100y/", "a\u3000b/", "\U0001F600/",
+            "long-" + "p" * 70 + "/" + "q" * 64 + "/"]      # > 100 bytes: GNU @LongLink record / ustar prefix field / pax path record in front of the member
     used = set()
     corrupted = None
     for i in range(n):
@@ -160,8 +161,9 @@ def gen_cases(run):
     rng = run.rng
     cid = 0
     reps = run.n(30, 300)
-    for layout in archives.ALL_LAYOUTS:
-        for r in range(reps):
+    for layout in archives.EXTENDED_LAYOUTS:
+        # TAR header formats other than tarfile's default (GNU tar's own format, POSIX ustar) x compression: half the repetitions each
+        for r in range(reps if layout in archives.ALL_LAYOUTS else reps // 2):
             n = rng.choice([0, 1, 1, 2, 3, 4, 6, 10])
             corrupt = rng.randrange(n) if (n >= 2 and r % 2 == 1) else None
             cid += 1
@@ -169,7 +171,7 @@ def gen_cases(run):
 
 
 def main(run):
-    run.rule = ("case = one archive (layout, 0..10 generated member documents, directories / empty / hidden / unsupported / nested members interleaved, optionally one corrupted member); "
+    run.rule = ("case = one archive (layout = container x compression / coder x folder layout x TAR header format pax|gnu|ustar, 0..10 generated member documents, directories / empty / hidden / unsupported / nested members interleaved, optionally one corrupted member); "
                 "distinct = (layout, #members, corrupted?, problem set); non-trivial = read_archive's ordered results were compared with stand-alone extraction of every eligible member")
     run.assumptions = ["the 7z writer is validated on solid layouts by the repository reader itself (self-test) and follows 7zFormat.txt for the others",
                        "a member that fails on its own is only required to be absent"]
@@ -199,7 +201,10 @@ def main(run):
                  sample={"layout": case["layout"], "members": ob.get("n_members"), "eligible": ob.get("n_eligible"), "results": ob.get("n_results"), "corrupted": ob.get("corrupted"), "problems": sorted(seen)} if case["id"] % 29 == 0 else None)
     run.count("members_compared_with_standalone_extraction", compared)
     run.extras["archives_per_layout"] = per_layout
-    run.require("layouts_exercised", len(per_layout), len(archives.ALL_LAYOUTS))
+    run.require("layouts_exercised", len(per_layout), len(archives.EXTENDED_LAYOUTS))
+    for fmt in ("pax", "gnu", "ustar"):     # every TAR header format must have been read back uncompressed (detection by the tar magic) and compressed
+        run.require(f"tar_{fmt}_uncompressed_archives", sum(n for l, n in per_layout.items() if archives.family(l) == "tar" and archives.tar_format(l) == fmt), 5)
+        run.require(f"tar_{fmt}_compressed_archives", sum(n for l, n in per_layout.items() if archives.family(l).startswith("tar.") and archives.tar_format(l) == fmt), 15)
     run.require("members_compared_with_standalone_extraction", compared, run.n(400, 8000))
 
 
